@@ -13,10 +13,18 @@
 # License along with this library.  If not, see <http://www.gnu.org/licenses/>.
 
 import sys
+import os
 from collections.abc import Sequence, Mapping
 from inspect import BoundArguments
 from modelx.core.chainmap import CustomChainMap
 from modelx.core.errors import DeletedObjectError
+
+# Verification hook (off by default): with MODELX_VERIF=1 in the environment,
+# Impl objects hash by creation order instead of by address, so that the
+# iteration order of sets of trace-graph nodes is reproducible across processes.
+_VERIF = os.environ.get("MODELX_VERIF") == "1"
+_verif_serial = [0]
+
 
 def get_interface_dict(impls):
     return {name: impls[name].interface for name in impls}
@@ -129,6 +137,18 @@ class Impl(BaseImpl):
     )
 
     interface_cls = None  # Override in sub classes if interface class exists
+
+    if _VERIF:
+        __slots__ = __slots__ + ("_vserial",)
+
+        def __new__(cls, *args, **kwargs):
+            self = object.__new__(cls)
+            _verif_serial[0] += 1
+            self._vserial = _verif_serial[0]
+            return self
+
+        def __hash__(self):
+            return self._vserial
 
     def __init__(self, system, parent, name, spmgr, interface=None, doc=None):
 
